@@ -37,6 +37,34 @@ CHECKS = {
    text="UInt64ToString for all 2^64 values (fork over the 20 digit counts; digits-only, no leading zero, value round-trip, injectivity decided by z3); MapClear on ≤3 symbolic entries under every iteration order at two instantiations; Assume/Assert for both booleans; WaitTimeout's delegation contract (called once with the caller's cond and unscaled timeout) for all timeouts.",
    note="fmt.Sprintf is an intrinsic (canonical decimal by fresh digit variables): the check decides that the real code formats x itself, not fmt's correctness. Real-time bounds of WaitTimeout are not claimed (primitive.WaitTimeout is stubbed).",
    tech="symbolic execution of go/ssa + SMT (z3), native replay"),
+ "C04": dict(cat="model_checking", ref="§4 C04",
+   text="Ordering/emission kernel: the real Ctx.Decls (depTracker, DFS closure, declsOrError) runs over dummy declaration nodes with Ctx.maybeDecls replaced by a stub that reports names and dependencies dictated by a symbolic structure: every directed dependency relation on N ≤ 3/4 declarations (cycles included), an unresolvable dependency, every split over ≤ 2 files. Obligations: each declaration translated and emitted exactly once; for acyclic relations every dependency precedes its dependant. [A translation-validation corpus for reference-site recording and naming is added when the GooseLang loader lands.]",
+   note="Partial: decides the ordering kernel, not that the translator records a dependency at every reference site (maybeDecls is stubbed). Trusted: gosym, z3.",
+   tech="symbolic execution of go/ssa with function override, exhaustive fork over dependency graphs"),
+ "C05": dict(cat="model_checking", ref="§4 C05",
+   text="Printer kernels on symbolic text: the real AddComment / CommentDecl / LoggingStmt / FuncDecl / ConstDecl / StructDecl printing, and the real basicLiteral / panic-message guards driven with a symbolic constant, run on every byte string up to the bound; the oracle is a reference Coq lexer (nested comments, strings inside comments) evaluated as one symbolic path, and z3 decides 'exactly one balanced comment, no open string' and 'rejected or preserved byte-for-byte'; -typecheck/comment flags leave the definition bytes unchanged. Found and fixed: odd quotes in comments, newline in string literals, quotes in panic messages.",
+   note="Text ≤ 4 (quick) / 6 (thorough) bytes; Coq's lexing rules as encoded by the reference lexer are trusted; expression-nesting/precedence is part of the C01 translation validation, not of this kernel.",
+   tech="symbolic execution of go/ssa on symbolic strings + SMT, reference-lexer oracle, native replay"),
+ "C06": dict(cat="model_checking", ref="§4 C06",
+   text="Partial: the kernels that order output are functions of their input — Decls run twice under independently chosen map-iteration orders (the executor makes map order an explicit nondeterministic choice) must give identical bytes; sortedFiles is permutation-invariant on 3 concrete and 2 fully symbolic file names.",
+   note="NOT claimed: determinism of the whole tool (translator proper inside concurrent workers, GOMAXPROCS, go/packages), data-race freedom of the workers.",
+   tech="symbolic execution with nondeterministic map order, permutation invariance + SMT"),
+ "C07": dict(cat="model_checking", ref="§4 C07",
+   text="Partial: error containment and aggregation — real declsOrError / Decls / errorReporter.prefixed / MultipleErrors over a symbolic failure pattern (each declaration ok, one of the five documented categories, or a foreign panic): exactly one structured, located error per failing declaration in source order with its own category and Pos/End, every other declaration still emitted, foreign panics not swallowed.",
+   note="NOT claimed: that the translator never panics on arbitrary type-correct Go (totality over programs is not encodable); maybeDecls is stubbed.",
+   tech="symbolic execution of go/ssa with function override, exhaustive fork over failure patterns"),
+ "C08": dict(cat="model_checking", ref="§4 C08",
+   text="pathToCoqPath / ImportToPath / ImportDecl.CoqDecl on every valid import path up to 4 (6) symbolic bytes (z3 decides the byte-wise '.'/'-'→'_' mapping and the logical path); PrintImports on import multisets; File.Write layout; the real getFfi on every acyclic import graph of root+3 (4) packages over a pool containing all five FFI keys against the 'walk stops at FFI' oracle; ffiHeaderFooter; Ctx.imports on import specs (renamed ⇒ refused, builtin ⇒ nothing, trusted_* ⇒ trusted). Found and fixed: Require line used the unmapped last segment.",
+   note="bytealg kernels are intrinsics; go/printer stubbed for error text. A package reaching two FFIs makes getFfi panic: counted as 'refused' here.",
+   tech="symbolic execution of go/ssa on symbolic strings / import graphs + SMT, native replay"),
+ "C17": dict(cat="model_checking", ref="§4 C17",
+   text="Real translate / writeFileIfChanged / coqFileContents / main flag wiring with TranslatePackages replaced by a stub returning symbolic results: ≤ 2 (3) packages succeeding or failing, -ignore-errors on/off, each target absent / identical / different; obligations: exit status 0 iff all translated, file at the Coq path with exactly File.Write's bytes, nothing written for failed packages unless -ignore-errors, no write call when bytes are identical, pattern error ⇒ exit 1 and no writes, flags/-dir/patterns reach the loader unchanged, newPackageConfig carries Dir, the goose build tag and the six Need bits.",
+   note="go/packages' pattern and build-tag resolution is outside; os/flag are intrinsics over the kernel model. Counterexamples are model-level.",
+   tech="symbolic execution of go/ssa with function override on a file-system model"),
+ "C18": dict(cat="model_checking", ref="§4 C18",
+   text="The real main of cmd/test_gen runs in -go and -coq mode over the same symbolic directory (file names of 9 symbolic bytes, lines of 12–20 symbolic bytes); the two real regexp constants are compiled by regexp/syntax and matched by a symbolic leftmost-first backtracker; both outputs are compared byte-for-byte with the output predicted by an independent oracle (header rule + skip rule), so 'one test per test function, in order, nothing else, both generators agree, failing_ ⇒ Fail' is decided for every byte content within the bound. Counterexamples are materialised on disk and replayed with the real binary. Found and fixed: -go did not skip _test.go/.gold.v.",
+   note="flag/os/bufio are intrinsics; compilation of the generated Go file is not checked; lines/names of other lengths are outside the bound.",
+   tech="symbolic execution of go/ssa with symbolic regexp matcher + SMT, replay with the real binary"),
 }
 NOT_YET = {}
 for i in range(1, 19):
